@@ -72,6 +72,40 @@ Definition run_expand (c : json) : json :=
     | OOF => JObj [("oof", JBool true)]
     | Unsup => JObj [("unsupported", JBool true)]
     end
+  else if (op =? "expand_schema") || (op =? "expand_param") || (op =? "expand_response") then
+    (* the single-element entry points (C10): ExpandSchemaWithBasePath / ExpandParameter / ExpandResponse against a location,
+       ExpandSchema / Expand{Parameter,Response}WithRoot against a supplied root (typed or generic), and the schema expander
+       with a cache pre-filled by an earlier call (the root filed under its pseudo location) *)
+    let kind := if op =? "expand_schema" then "Schema" else if op =? "expand_param" then "Parameter" else "Response" in
+    let entry := jget_str "entry" c in
+    let o := opts_of c in
+    let out_elem (r : eres (st * json)) : json :=
+      match r with
+      | Done (s, j) =>
+          let j' := match norm gen_env false j (TNamed kind) with ROk v => v | _ => j end in
+          JObj [("err", JBool false); ("out", j'); ("loads", JArr (map JStr (rev (log s))))]
+      | Failed sf => JObj [("err", JBool true); ("out", JNull); ("loads", JArr (map JStr (rev (log sf))))]
+      | OOF => JObj [("oof", JBool true)]
+      | Unsup => JObj [("unsupported", JBool true)]
+      end in
+    match norm gen_env false (jget "element" c) (TNamed kind) with
+    | ROk nel =>
+        if entry =? "base_path" then
+          if op =? "expand_schema" then out_elem (expand_schema_with_base gen_env served "/" o root None fuel root [] nel)
+          else out_elem (expand_element_with_base gen_env served "/" o root None fuel root [] kind nel)
+        else
+          match assoc root all with
+          | Some d =>
+              let rootdoc := if entry =? "with_root_typed"
+                             then match norm gen_env false d (TNamed "Swagger") with ROk nd => nd | _ => d end else d in
+              let pseudo := jget_str "pseudo_root" c in
+              if op =? "expand_schema" then out_elem (expand_schema_with_root gen_env served "/" o pseudo None fuel pseudo rootdoc [] nel)
+              else out_elem (expand_element_with_root gen_env served "/" o pseudo (Some (pseudo, rootdoc)) fuel pseudo rootdoc [] kind nel)
+          | None => jerr "no root document"
+          end
+    | RErr => JObj [("err", JBool true); ("out", JNull); ("loads", JArr [])]
+    | RUnsup => JObj [("unsupported", JBool true)]
+    end
   else if op =? "domain" then
     (* does this generated graph satisfy the hypotheses of the C02/C03/C04/C08/C18 theorems?  The schema graph reachable from
        the definitions of the root, with the root taken in the typed form the expander holds it in *)
